@@ -332,6 +332,10 @@ where
         let existed = self.connecting.remove(&token);
         if existed {
             trace!("pending connection cancelled");
+
+            // Requests which only wait for this attempt have nothing left to wait
+            // for: dropping their senders lets them fail instead of waiting forever.
+            self.waiting.remove(&token);
         }
     }
 }
